@@ -51,6 +51,7 @@ inductive QOp where
   | removeTyped (n : Nat)
   | tryGetChecksum                  -- `try_get_typed::<Checksum>()`, the parsed value serialised again
   | cloneFrom (items : List (Str × Str))  -- `q.clone_from(&Qualifiers::try_from_iter(items)?)`
+  | tryInsertChecksum (alg raw : Str)    -- `try_insert_typed(Checksum{alg: raw})`: a refused value changes nothing
   deriving Repr, DecidableEq
 
 inductive QOut where
@@ -193,6 +194,14 @@ def Quals.step (U : UnicodeOps) (q : Quals) : QOp → Res PErr (QOut × Quals)
     | .ok q' => .ok (.unit, q')
     | .error (.err e) => .ok (.err e, q)
     | .error (.panic s) => panic s
+  | .tryInsertChecksum alg raw =>
+    match (Cksum.insertRaw U [] alg raw).toText with
+    | .error (.err e) => .ok (.err e, q)
+    | .error (.panic site) => panic site
+    | .ok txt =>
+      match q.insertTyped U checksumKey txt with
+      | .ok q' => .ok (.unit, q')
+      | .error f => .error f
   | .cloneFrom items =>
     match Quals.tryFromIter U items [] with
     | .ok q' => .ok (.unit, q')
